@@ -71,6 +71,11 @@ CHECKS = {
          "Random search over #if/#elif/#else trees to depth 4 (conditions over constants declared before, after and inside other arms, hierarchical names) x 0-4 defines; the one live world is computed by the reference and assembled by the reference assembler; accept/reject, bits and symbols must match, and library and command-line ways of passing defines must agree. Exploration.",
          "Arms declare only global symbols or only children of the global label preceding the chain (the re-parenting of later nested declarations is a listed known finding with a directed probe); defines name constants or nothing.",
          "6/C16"),
+ "C18": ("exploration",
+         "model-based property testing of command lines: the option grammar and format table are parsed from src/usage_help.md at run time; the driver's accept/reject decision, written files and their contents are compared with the model; a sample goes through the real binary",
+         "Random search over command lines (1-4 groups, every documented format and parameter, invalid near-misses, option spellings, global options anywhere, awkward input names) on four small programs. Decides accept/reject-before-assembling, the list of files, per-group content (defaults and aliases as documented), -p, -q, -t plumbing, -h/-v. Exploration.",
+         "Per-format content is taken from driver::format_output for the format the usage text documents (the formatters themselves are C11/C12's business); the valid value sets for annotated base and intelhex addr_unit, which the usage text does not list, are the ones the repository's tests document.",
+         "6/C18"),
  "C08": ("exploration",
          "metamorphic/differential property testing: the same job under the four optimisation-switch combinations x five iteration budgets must agree on success, bits and symbols",
          "Differential run of the real code against itself over generated (size-static and cascading) programs, the whole test corpus and token-mutated corpus programs. No model is trusted; exploration of a sampled program space.",
